@@ -20,7 +20,9 @@ ENC_BAD_SESSION = 0x64
 ENC_BAD_LEN = 0x65
 ENC_BAD_VERSION = 0x69
 
-CLIENT_CMDS = (0x63, 0x65, 0x66, 0x6F, 0x70)
+# encapsulation commands an originator may send: NOP, ListServices, ListIdentity, ListInterfaces, Register/UnRegister
+# Session, SendRRData, SendUnitData (the library uses five of them today; the others are legal and answered too)
+CLIENT_CMDS = (0x00, 0x04, 0x63, 0x64, 0x65, 0x66, 0x6F, 0x70)
 
 
 class Hits:
@@ -556,16 +558,19 @@ class EipEndpoint:
         if options != 0:
             hit("options", f"non-zero options 0x{options:x}")
         expected = self.session or 0
-        if session != expected:
+        # the session handle field is ignored by a target for NOP and the List* commands (EtherNet/IP spec 2-4)
+        if session != expected and cmd not in (0x00, 0x04, 0x63, 0x64):
             hit("session", f"session handle 0x{session:08x} but the target granted 0x{expected:08x} (cmd 0x{cmd:02x})",
                 ("R-ENC-SESSION",))
         body = data[24:]
         if cmd == 0x65:
             if length != 4 or body != b"\x01\x00\x00\x00":
                 hit("register_body", f"RegisterSession body {body.hex()}")
-        elif cmd in (0x66, 0x63):
+        elif cmd in (0x66, 0x63, 0x04, 0x64):
             if length != 0:
                 hit("body", f"command 0x{cmd:02x} carries {length} body bytes")
+        elif cmd == 0x00:
+            pass            # NOP may carry any data
         else:
             try:
                 iface, tmo, items = parse_cpf(body)
@@ -653,6 +658,16 @@ class EipEndpoint:
             return
         if cmd == 0x63:
             self.reply(build_encap(0x63, session, 0, ctx8, module.list_identity_body()), {"kind": "list_identity"})
+            return
+        if cmd == 0x00:
+            return          # NOP: no reply
+        if cmd == 0x04:
+            # ListServices: one item, type 0x100, "Communications" with the CIP-encapsulation capability flag
+            item = struct.pack("<HHHH", 0x100, 20, 1, 0x0120) + b"Communications\x00\x00"
+            self.reply(build_encap(0x04, session, 0, ctx8, struct.pack("<H", 1) + item), {"kind": "list_services"})
+            return
+        if cmd == 0x64:
+            self.reply(build_encap(0x64, session, 0, ctx8, struct.pack("<H", 0)), {"kind": "list_interfaces"})
             return
         if cmd == 0x65:
             if self.session is not None:
